@@ -86,6 +86,7 @@ class Gen:
         self.rnd = random.Random(ctx.seed)
         self.cases = []
         self.vals = {}        # operand source -> val record (each distinct operand expression is validated once)
+        self.in_pool = True   # operands created for the pools (all validated by TLC); later ones are sampled
         self.zones = [z for z in ZONES if z[1] is None or zones_ok.get(z[1])]
 
     def add(self, rec):
@@ -166,6 +167,7 @@ class Gen:
         val = dict(val)
         val["X"] = enc_operand(x)
         val["src"] = W + "(" + x["src"] + ")"
+        val["pool"] = self.in_pool
         self.vals[x["src"]] = val
 
     # ------------------------------------------------------------------- records
@@ -297,7 +299,7 @@ def rand_dur_text(rnd):
     out = rnd.choice(["", "", "", "-", "+"])
     for _ in range(n):
         form = rnd.random()
-        ip = str(rnd.randint(0, rnd.choice([9, 99, 5000, 10 ** 7])))
+        ip = str(rnd.randint(0, rnd.choice([9, 99, 5000, 10 ** 6])))
         if form < 0.5:
             num = ip
         elif form < 0.8:
@@ -306,7 +308,7 @@ def rand_dur_text(rnd):
             num = "." + "".join(rnd.choice("0123456789") for _ in range(rnd.randint(1, 6)))
         else:
             num = ip + "."
-        out += num + rnd.choice(units)
+        out += num + rnd.choice(units if len(ip) < 5 else units[:5])      # keep most sums inside the range
     r = rnd.random()
     if r < 0.25:       # one corruption
         pos = rnd.randint(0, len(out))
@@ -390,8 +392,9 @@ def generate(ctx, zones_ok):
             g.civil_recs(comp, z[2], z[1])
         g.civil_recs(comp, rnd.choice(TEXT_OFFSETS), None)
     # ---- seeded random part of the quantifier
+    g.in_pool = False
     acc = sorted(ACCEPTED)
-    nrand = 3000 if ctx.quick else 260000
+    nrand = 3000 if ctx.quick else 180000
     for _ in range(nrand):
         r = rnd.random()
         if r < 0.55:
@@ -411,7 +414,7 @@ def generate(ctx, zones_ok):
         if a == b and rnd.random() < 0.15:
             y = g.time_op(x["n"]) if a == "time" else (g.dur_op(x["n"]) if a == "duration" else y)
         g.op(x, op, y)
-    nlaw = 500 if ctx.quick else 12000
+    nlaw = 500 if ctx.quick else 8000
     for _ in range(nlaw):
         t, t2 = rand_operand(g, "time"), rand_operand(g, "time")
         d, d2 = rand_operand(g, "duration"), rand_operand(g, "duration")
@@ -429,8 +432,13 @@ def generate(ctx, zones_ok):
         g.hash(d, g.dur_op(d["n"], plain=True))
     for _ in range(300 if ctx.quick else 15000):
         g.dparse(rand_dur_text(rnd))
-    # every distinct operand expression is itself a record (constructor / attribute binding)
+    # every distinct operand expression is itself a case (constructor / attribute binding): all of them are
+    # evaluated; TLC validates all pool operands and a seeded sample of the random ones (plus any that failed)
+    nval = 10 ** 9 if ctx.quick else 40000
+    rest = [v for v in g.vals.values() if not v["pool"]]
+    keep = set(id(v) for v in (rest if len(rest) <= nval else rnd.sample(rest, nval)))
     for v in g.vals.values():
+        v["judge"] = v.pop("pool") or id(v) in keep
         g.add(v)
     return g
 
@@ -450,23 +458,60 @@ def evaluate(ctx, cases, tag="cases"):
 
 
 def record(c, r):
-    rec = {k: v for k, v in c.items() if k != "src"}
+    rec = {k: v for k, v in c.items() if k not in ("src", "judge")}
     rec["res"] = {"ok": True, "v": r["v"]} if r["ok"] else {"ok": False}
     return rec
 
 
-def signature(c):
+def unbig(b):
+    v = 0
+    for l in reversed(b["m"]):
+        v = (v << 15) | l
+    return -v if b["neg"] else v
+
+
+def has_min_duration(*xs):
+    return any(x["k"] == "duration" and unbig(x["n"]) == MINI64 for x in xs)
+
+
+def signature(c, suffix=True):
+    """names the failing input class: the ordered operand kinds and the operator of a table entry, the law, or the
+    function.  A documented (accepted) entry or a law that fails only because a duration operand is the most negative
+    value -2^63 ns (negating it overflows) is a different defect class and gets the suffix /min-duration."""
     k = c["c"]
     if k == "op":
-        return "time:%s%s%s" % (c["L"]["k"], c["op"], c["R"]["k"])
+        e = (c["L"]["k"], c["op"], c["R"]["k"])
+        return "time:%s%s%s" % e + ("/min-duration" if suffix and e in ACCEPTED and has_min_duration(c["L"], c["R"]) else "")
     if k == "val":
         return "time:val/%s" % c["ctor"]
     if k == "law":
-        return "time:law/%s" % c["name"]
+        return "time:law/%s" % c["name"] + ("/min-duration" if suffix and has_min_duration(c["A"], c["B"]) else "")
     if k == "hash":
         return "time:hash/%s,%s" % (c["A"]["k"], c["B"]["k"])
     return {"attrs": "time:attrs", "mk": "time:time()", "ptime": "time:parse_time", "sort": "time:sorted",
             "dstr": "time:str(duration)", "dparse": "time:parse_duration"}[k]
+
+
+def show(r):
+    """readable form of an observed result (for messages only)"""
+    if not r["ok"]:
+        return "error: " + r.get("err", "")
+    v = r.get("v", {})
+    try:
+        iv = lambda x: x["v"] if x["t"] == "int" else unbig(x)
+        if v.get("t") == "tuple" and v["v"] and v["v"][0].get("t") == "int":
+            code, t = v["v"][0]["v"], v["v"]
+            if code == 1:
+                return "duration of %d ns" % iv(t[1])
+            if code == 2:
+                return "time unix=%d s + %d ns" % (iv(t[1]), iv(t[2]))
+            if code == 3:
+                return "int %d" % iv(t[1])
+            if code == 5:
+                return "bool %s" % t[1]["v"]
+    except Exception:
+        pass
+    return json.dumps(v)[:160]
 
 
 def tlc_validate(ctx, files, need_cover=True):
@@ -517,6 +562,13 @@ def run(ctx):
     cases = g.cases
     ctx.log("generated %d cases (%d distinct operand expressions)" % (len(cases), len(g.vals)))
     res = evaluate(ctx, cases)
+    # operand expressions outside the TLC sample must at least evaluate (otherwise they are judged like the others)
+    nall = len(cases)
+    cases = [c for c in cases if c["c"] != "val" or c["judge"] or not res[c["id"]]["ok"]]
+    g.cases = cases
+    ctx.log("%d operand expressions evaluated without error and left out of the TLC sample" % (nall - len(cases)))
+    ctx.tlc_ok("C19MC", "C19MC.cfg", workers=8, heap="4g")
+    ctx.log("design check of TimeSpec (C19MC) passed")
     recs = [record(c, res[c["id"]]) for c in cases]
     files = []
     for k, sh in enumerate(vlib.shard(recs, max(1, (len(recs) + 119999) // 120000))):
@@ -530,7 +582,11 @@ def run(ctx):
     byid = {c["id"]: c for c in cases}
     # re-execute every rejected case alone before reporting it (one representative per signature and source is enough
     # for the report, but all are re-executed so that a flaky result is a machinery error)
-    redo = [byid[i] for i in sorted(set(bad))]
+    def plain(c):       # report an illustrative representative first: non-zero operands in the plain UTC spelling
+        xs = [c[f] for f in ("L", "R", "A", "B", "X") if f in c]
+        return (any(unbig(x["n"]) == 0 and x["k"] in ("time", "duration", "int") for x in xs),
+                any(abs(unbig(x["n"])) < E9 and x["k"] == "duration" for x in xs), sum(x["z"] for x in xs), len(c["src"]))
+    redo = sorted((byid[i] for i in set(bad)), key=lambda c: (signature(c), plain(c), c["id"]))
     if redo:
         r2 = evaluate(ctx, redo, tag="redo")
         for c in redo:
@@ -541,8 +597,14 @@ def run(ctx):
         sig = signature(c)
         sig_count[sig] = sig_count.get(sig, 0) + 1
         r = res[c["id"]]
-        obs = json.dumps(r.get("v"))[:160] if r["ok"] else "error: " + r.get("err", "")
-        ctx.violation(sig, "%s -> %s, TimeSpec disagrees" % (c["src"].replace(W, "W"), obs), {"case": c, "observed": r})
+        ctx.violation(sig, "%s -> %s, TimeSpec disagrees" % (c["src"].replace(W, "W"), show(r)), {"case": c, "observed": r})
+    if os.environ.get("C19_STRICT_RANGE") == "1":
+        # optional strict reading: a result that does not fit the type must be rejected, never wrapped or clamped
+        for cid, v in notes:
+            if v in ("wrap", "sat"):
+                c = byid[cid]
+                ctx.violation("time:overflow-%s/%s" % (v, signature(c, suffix=False)[5:]), "%s -> %s" % (c["src"].replace(W, "W"), show(res[cid])),
+                              {"case": c, "observed": res[cid]})
     for c in cases:
         if res[c["id"]].get("panic"):
             ctx.violation(signature(c) + "/panic", "%s panics: %s" % (c["src"].replace(W, "W"), res[c["id"]]["panic"]), {"case": c})
@@ -558,10 +620,10 @@ def run(ctx):
     note_count, note_ex = {}, {}
     for cid, v in notes:
         c = byid[cid]
-        key = "%s: %s" % (v, signature(c))
+        key = "%s: %s" % (v, signature(c, suffix=False))
         note_count[key] = note_count.get(key, 0) + 1
         note_ex.setdefault(key, c["src"].replace(W, "W"))
-    ctx.cov["evaluations"] = len(cases)
+    ctx.cov["evaluations"] = nall
     ctx.cov["traces_validated_against_impl"] = checked - len(set(bad))
     ctx.cov["distinct_nontrivial"] = len({c["src"] for c in cases})
     ctx.cov["per_class"] = per_class
@@ -602,6 +664,6 @@ def replay(ctx, path):
     f = ctx.path("replay.ndjson")
     vlib.write_ndjson(f, [record(c, r)])
     bad, notes, _, _ = tlc_validate(ctx, [f], need_cover=False)
-    print("replay %s: %s -> %s : %s" % (path, c["src"].replace(W, "W"), json.dumps(r.get("v", r.get("err"))),
+    print("replay %s: %s -> %s : %s" % (path, c["src"].replace(W, "W"), show(r),
                                         "REJECTED by spec" if bad else "accepted"))
     return 1 if bad else 0
